@@ -308,7 +308,7 @@ pub fn evaluate(prop: &dyn Property, c: &Case) -> CheckResult {
             Ok(None) => {}
             Err(_) => break None,
         }
-        if t0.elapsed().as_secs() >= limit {
+        if is_hung(limit, t0.elapsed().as_secs_f64(), proc_cpu_secs(child.id())) {
             let _ = child.kill();
             let _ = child.wait();
             let _ = std::fs::remove_file(&path);
@@ -619,12 +619,28 @@ pub fn explore_batch(prop: &dyn Property, tier: Tier, seed: u64, runs: u64, nwor
         let done_r = &done;
         let prop_id = prop.id();
         sc.spawn(move || {
+            // samples of this process's CPU time: a case counts as hung when it has been running for
+            // the limit of wall time *and* the process received at least that much CPU time meanwhile
+            // (a starved machine is not a hang), or after five limits of wall time whatever the CPU
+            let mut cpu_hist: Vec<(Instant, f64)> = vec![];
             while !done_r.load(Ordering::Relaxed) {
                 std::thread::sleep(std::time::Duration::from_millis(500));
+                let now_cpu = proc_cpu_secs(std::process::id());
+                if let Some(c) = now_cpu {
+                    cpu_hist.push((Instant::now(), c));
+                    if cpu_hist.len() > 20_000 {
+                        cpu_hist.drain(..10_000);
+                    }
+                }
                 for s in &slots_w {
                     let g = s.cur.lock().unwrap();
                     if let Some((t0, case)) = &*g {
-                        if t0.elapsed().as_secs() >= hang_limit {
+                        let wall = t0.elapsed().as_secs();
+                        let cpu_since = match (now_cpu, cpu_hist.iter().find(|(t, _)| t >= t0)) {
+                            (Some(n), Some((_, c0))) => n - c0,
+                            _ => f64::MAX,
+                        };
+                        if (wall >= hang_limit && cpu_since >= hang_limit as f64) || wall >= 5 * hang_limit {
                             let rf = ReplayFile {
                                 property: prop_id.into(),
                                 clause: format!("{prop_id}.no_result"),
@@ -1118,7 +1134,7 @@ pub fn explore_batch_isolated(prop: &dyn Property, tier: Tier, seed: u64, runs: 
     let next_chunk = AtomicU64::new(0);
     let mut out = BatchResult { stats: Stats::default(), fails: vec![], harness_errors: vec![], runs };
     struct ChildState {
-        last_intent: Option<(Instant, String)>,
+        last_intent: Option<(Instant, f64, String)>,
         ended: bool,
     }
     let results: Mutex<Vec<(u64, Vec<String>, Option<String>, String)>> = Mutex::new(vec![]); // (from, lines F/S/H, abnormal last intent, how)
@@ -1152,10 +1168,11 @@ pub fn explore_batch_isolated(prop: &dyn Property, tier: Tier, seed: u64, runs: 
                 let st2 = state.clone();
                 let lines: Arc<Mutex<Vec<String>>> = Arc::new(Mutex::new(vec![]));
                 let l2 = lines.clone();
+                let child_pid = child.id();
                 let reader = std::thread::spawn(move || {
                     for line in BufReader::new(stdout).lines().map_while(Result::ok) {
                         if let Some(rest) = line.strip_prefix("I ") {
-                            st2.lock().unwrap().last_intent = Some((Instant::now(), rest.to_string()));
+                            st2.lock().unwrap().last_intent = Some((Instant::now(), proc_cpu_secs(child_pid).unwrap_or(0.0), rest.to_string()));
                         } else if line == "D" {
                             st2.lock().unwrap().last_intent = None;
                         } else if line == "E" {
@@ -1186,9 +1203,9 @@ pub fn explore_batch_isolated(prop: &dyn Property, tier: Tier, seed: u64, runs: 
                     let hung = {
                         let g = state.lock().unwrap();
                         match &g.last_intent {
-                            Some((t0, c)) => {
+                            Some((t0, cpu0, c)) => {
                                 let limit = serde_json::from_str::<Case>(c).map(|c| prop.hang_limit_s(&c)).unwrap_or(120);
-                                t0.elapsed().as_secs() >= limit
+                                is_hung(limit, t0.elapsed().as_secs_f64(), proc_cpu_secs(child_pid).map(|x| x - cpu0))
                             }
                             None => false,
                         }
@@ -1210,7 +1227,7 @@ pub fn explore_batch_isolated(prop: &dyn Property, tier: Tier, seed: u64, runs: 
                     if how.is_empty() {
                         how = format!("child terminated abnormally: {status:?}; stderr: {}", truncate(&stderr_text, 600));
                     }
-                    Some(g.last_intent.as_ref().map(|x| x.1.clone()).unwrap_or_default())
+                    Some(g.last_intent.as_ref().map(|x| x.2.clone()).unwrap_or_default())
                 };
                 let l = lines.lock().unwrap().clone();
                 results.lock().unwrap().push((from, l, abnormal, how));
@@ -1271,6 +1288,30 @@ pub fn explore_batch_isolated(prop: &dyn Property, tier: Tier, seed: u64, runs: 
         }
     }
     out
+}
+
+/// CPU seconds (user + system, all threads) consumed so far by process `pid`, from /proc. The hang
+/// watchdog of the isolated runners decides on *consumed CPU time*, not on wall-clock time: a child
+/// that is merely starved by other load on the machine is not hung, one that burns its budget is.
+pub fn proc_cpu_secs(pid: u32) -> Option<f64> {
+    let s = std::fs::read_to_string(format!("/proc/{pid}/stat")).ok()?;
+    let rest = &s[s.rfind(')')? + 1..];
+    let f: Vec<&str> = rest.split_whitespace().collect();
+    // after the command name: state is field 0, utime field 11, stime field 12
+    let ut: f64 = f.get(11)?.parse().ok()?;
+    let st: f64 = f.get(12)?.parse().ok()?;
+    Some((ut + st) / 100.0)
+}
+
+/// Hang verdict from (limit, wall seconds since the case started, CPU seconds it consumed since):
+/// the CPU budget is used up, or the process sits blocked (next to no CPU over three limits of wall
+/// time), or an absolute wall-clock backstop of twenty limits has passed.
+pub fn is_hung(limit: u64, wall: f64, cpu: Option<f64>) -> bool {
+    let l = limit as f64;
+    match cpu {
+        Some(c) => c >= l || (wall >= 3.0 * l && c < 0.05 * wall) || wall >= 20.0 * l,
+        None => wall >= 3.0 * l,
+    }
 }
 
 /// Determinism self-test support: per-run digests of (generated cases, verdicts, logical time).
